@@ -434,6 +434,7 @@ pub fn gen(seed: u64, n: usize) -> Vec<Value> {
                     })
                     .collect();
                 let max_vocab = if rng.random_bool(0.3) { 256 + specials.len() + rng.random_range(0..=tab.len()) }
+                    else if rng.random_bool(0.15) { 256 + specials.len() + tab.len() + rng.random_range(1..300) }
                     else if rng.random_bool(0.15) { rng.random_range(1..=256 + specials.len()) } else { 0 };
                 out.push(json!({"kind": "bpe", "special": special, "g": g, "texts": texts, "unk": "<unk>",
                     "tab": tab, "max_vocab": max_vocab}));
